@@ -7,7 +7,7 @@
    the reading (Proofs/TaskDbP.v [dep_query_own]). *)
 From Coq Require Import List NArith Bool.
 From Shovel Require Import Model.TaskTypes Model.TaskDb Model.Task Model.TaskNode Model.TaskSys
-  Model.TaskSpec Model.TaskWitness Proofs.TaskDbP Proofs.TaskLegacyP Proofs.C05P.
+  Model.TaskSpec Model.TaskWitness Proofs.TaskDbP Proofs.TaskLegacyP Proofs.C05P Proofs.C05SysP.
 Import ListNotations.
 Open Scope N_scope.
 
@@ -52,6 +52,32 @@ Theorem dep_lookup_complete : forall c cR d ws,
              /\ newest (t_src cR) (t_ig cR) (d_curs (vis d (Some ws))) = gpos gR.
 Proof. exact dep_lookup. Qed.
 Print Assumptions dep_lookup_complete.
+
+(* THE INTERLEAVED SYSTEM.  Any number of tasks, any schedule at statement
+   granularity with faults and crashes ([sched_ok]) in which no answer forces a
+   dependency reading (every reading is what the committed database says at
+   that moment).  [ts_hist t] is the ghost history of the task's current
+   Converge call: every operation with its reply and the committed database AT
+   THE MOMENT it was issued.  Whenever a task with filter references is about
+   to write a position [cur]: the most recent dependency query of this call
+   answered (dn, dh) with full count, it was evaluated on the committed
+   database [d_r] of a state of this run, [c_num cur <= dn], and in [d_r] EVERY
+   referenced integration had a committed cursor >= dn -- the referenced tasks
+   may commit (or unwind: then C03 repairs both) only before or after. *)
+Theorem system_dep_bounded : forall cfgs d sch,
+  Forall cfg_ok cfgs -> Forall (fun m => unforced (snd m)) sch -> sched_ok sch (sys_init cfgs d) ->
+  forall st t cur a b n k,
+  In st (sys_states sch (sys_init cfgs d)) -> In t (s_tasks st) ->
+  t_deps (ts_cfg t) <> [] -> ts_prog t = Some (Op (InsCursor cur a b n) k) ->
+  exists dn dh d_r,
+    In (QLatestDep (t_src (ts_cfg t)) (t_deps (ts_cfg t)), RDep (Some (dn, dh, ndeps (ts_cfg t))), d_r) (ts_hist t)
+    /\ In d_r (map s_db (sys_states sch (sys_init cfgs d)))
+    /\ c_num cur <= dn
+    /\ dep_query (t_src (ts_cfg t)) (t_deps (ts_cfg t)) (d_curs d_r) = Some (dn, dh, ndeps (ts_cfg t))
+    /\ forall R, In R (t_deps (ts_cfg t)) ->
+         exists n' h', newest (t_src (ts_cfg t)) R (d_curs d_r) = Some (n', h') /\ dn <= n'.
+Proof. exact system_dep_lemma. Qed.
+Print Assumptions system_dep_bounded.
 
 (* The pinned code (legacy variant) ignores a referenced integration that has
    no cursor: dependencies [2;3], integration 2 at block 5, integration 3 not
